@@ -39,6 +39,19 @@ and range geometries (kind, map, size; non-square operators) are the rule in the
 geometries must be the base model's, swapped (own signature, the cell is then not judged further - everything else would
 follow from it); then it runs through the same batteries as every other model (forward, adjoint, gradient, get_matrix,
 rename) against the dense transposed operator between the swapped dense reference geometries.
+
+History facet "outputs are values, inputs stay the caller's" (every model kind, every operation): nothing the harness
+receives or hands over is thrown away inside a cell.  Every input object (ndarray / CUQIarray / list / Samples and the
+array a Samples was built from) is remembered with a value copy taken before the call, every output object (of forward,
+adjoint, gradient, get_matrix; ndarray / CUQIarray / Samples / matrix) with a value copy taken when it was returned -
+the moment it was compared with the reference.  The order of the batteries is the history: point p1 in each
+representation, p2, p3, ..., sample collections, [adjoint battery,] gradients, get_matrix + forward + gradients + second
+get_matrix, model(distribution) + its applications.  After the collections of each battery, after the gradients, after
+get_matrix and at the end of the cell every kept object must still read what it read then (`earlier-output-altered`,
+`input-altered`; facet in the signature: operation + kind of object kept).  Aliasing as such is not judged (the
+statement does not forbid it): only objects whose content CHANGES through later use of the model are reported.
+The PDE models come with grids unspecified and (`*_grid` kinds) with explicit, equal solution/observation grids, crossed
+with the identity-like range geometries - the configuration in which the library passes the PDE solver's own array through.
 """
 import numpy as np
 from vfw.core import CellResult, close
@@ -56,7 +69,12 @@ RULE = ("cells = model kind (incl. the derived models LinearModel.T / .T.T) x do
         "another grid, other-grid function values), dtype facet (int64 / float32 / list as ndarray and CUQIarray), "
         "Samples with 1..3 columns x {own geometry float64/int64/float32/list of columns, default geometry, other-grid "
         "geometry}; linear models: the same battery through adjoint; every (direction, wrt) representation pair of "
-        "gradient (16 + 11 pairs of the geometry-carried/dtype facets) with all basis directions; a cell is non-trivial "
+        "gradient (16 + 11 pairs of the geometry-carried/dtype facets) with all basis directions; history facet: every "
+        "input and output object of every call above (forward / adjoint / gradient / get_matrix, each representation) is "
+        "kept with a value copy taken at call resp. return time and audited after the sample collections of each battery, "
+        "after the gradients, after get_matrix + forward + gradient + a second get_matrix, and at the end of the cell "
+        "(after model(distribution) and its applications): kept outputs and the caller's inputs read what they read then; "
+        "PDE models with unspecified and with explicit coinciding solution/observation grids; a cell is non-trivial "
         "when at least one forward value was compared with the composed reference")
 BOUND = {
     "quick": "models {Model+jacobian, Model+gradient, Model, LinearModel matrix/callables/inferred, PDEModel Poisson "
@@ -75,14 +93,20 @@ BOUND = {
              "MappedGeometry alphabet: domain kinds {cumsum o Image2D-F, shift o Continuous2D, mixing o Image2D-C, cumsum o "
              "Continuous1D, cumsum-of-sinh o Image2D-F with gradient} x range {plain 1-D, Image2D-F, equal copy, one mapped "
              "range}, range kinds {cumsum o Image2D-C, shift o Image2D-F, mixing o Continuous2D, mixing o Continuous1D} x "
-             "domain {plain 1-D, Image2D-C, StepExpansion with gradient}, every model kind",
+             "domain {plain 1-D, Image2D-C, StepExpansion with gradient}, every model kind; PDEModel with explicit equal "
+             "grid_sol/grid_obs {Poisson, Heat forward Euler, Heat backward Euler with the final time given as time_obs "
+             "array} x domain {plain 1-D, Image2D-C, StepExpansion with gradient} x the 7 range kinds with a 1-D function "
+             "space (+ equal copy); history facet: all objects of a cell (about 150-250 forward/adjoint outputs, every "
+             "computed gradient, 2 matrices, all inputs) audited at 3-5 stages",
     "thorough": "same product with 2 sizes per domain and per range kind (4 combinations), points = basis + origin + "
                 "integer generic + 3 dyadic generic, every Samples variant with 1..3 columns, gradient linearised at "
                 "every point (extra pairs at the last generic point, integer pair at every integer-valued point); MappedGeometry "
                 "alphabet: all 15 map x base kinds {sinh, cumsum, shift, mixing} x {Continuous1D, Image2D-C, Image2D-F, "
                 "Continuous2D} (+ cumsum-of-sinh with gradient over Continuous1D / Image2D-F as domain) against every basic "
                 "kind of the other side, an equal copy and one mapped partner (second size for the plain 1-D / Image2D-C / "
-                "mapped partners); derived models additionally (B.T).T (first size variant)",
+                "mapped partners); derived models additionally (B.T).T (first size variant); explicit-grid PDE models x "
+                "every domain kind x the 7 range kinds with a 1-D function space (second size for the plain 1-D domain); "
+                "history facet as in quick over the larger batteries",
 }
 ASSUMPTIONS = [
     "MappedGeometry: the documented composition is the reference (par2fun = map after the wrapped geometry's par2fun, "
@@ -113,6 +137,14 @@ ASSUMPTIONS = [
     "the adjoint reference uses the dense reference fun2par of the domain geometry on arbitrary function vectors "
     "(inverse of the full KL basis truncated to the modes, interval means for StepExpansion)",
     "numpy.linalg.solve / inv on dimensions <= 9 is the trusted base of the reference",
+    "history facet: 'yields the same outputs' is read for outputs the caller holds - an output returned by one application "
+    "is a value, it does not change when the model is applied again (otherwise per-vector outputs collected in a loop "
+    "would differ from the columns of the sample-collection output); aliasing between outputs and internal state is not "
+    "judged as such (get_matrix may hand out the stored matrix), only a change of a kept object's content, dtype, flag or "
+    "geometry object; the history is the fixed order of the batteries of a cell, not all permutations of it; the caller "
+    "modifying a returned object is not part of the history",
+    "PDE grids: unspecified, or explicit and equal (1-D range function spaces); different solution/observation grids "
+    "(the library's spline interpolation) are not exercised",
 ]
 
 EQ_RANGE = "=dom"
@@ -182,6 +214,15 @@ def cells(tier, seed):
             for vd, vr in variants:
                 yield {"model": model, "dom": dom, "rng": rng, "vd": vd, "vr": vr, "cat": k,
                        "npts": npts, "allw": allw}
+    # PDE models with explicit coinciding solution/observation grids: every range kind with a 1-D function space (the grid
+    # acts on the observation side) x a covering subset of domain kinds (thorough: every domain kind)
+    rngs = [r for r in M.RNG_KINDS if M.range_1d(r)]
+    doms = ["default1d", "image2d_C", "step_grad"] if tier == "quick" else M.DOM_KINDS
+    for model in M.GRID_MODELS:
+        for dom in doms:
+            for rng in rngs + ([EQ_RANGE] if M.range_1d(dom) and dom in ("default1d", "cont1d", "step_grad") else []):
+                for v in ([0] if tier == "quick" or dom != "default1d" or rng == EQ_RANGE else [0, 1]):
+                    yield {"model": model, "dom": dom, "rng": rng, "vd": v, "vr": v, "cat": k, "npts": npts, "allw": allw}
     for model in ["lin_inferred", "lin_inferred_T"] + ([] if tier == "quick" else ["lin_inferred_TT"]):
         for vd in ([0] if tier == "quick" else [0, 1]):
             yield {"model": model, "dom": "default1d", "rng": "default1d", "vd": vd, "vr": vd, "cat": k,
@@ -208,8 +249,133 @@ def _same_geometry(a, b):
         return False
 
 
+_TYPES = []
+
+
+def _container(obj):
+    """Kind of object a caller holds: ndarray / CUQIarray / Samples / list / matrix (scipy sparse) / scalar."""
+    if not _TYPES:
+        from cuqi.array import CUQIarray
+        from cuqi.samples import Samples
+        _TYPES.extend([CUQIarray, Samples])
+    t = type(obj)
+    if t is np.ndarray:
+        return "ndarray"
+    if t is _TYPES[0]:
+        return "CUQIarray"
+    if isinstance(obj, _TYPES[1]):
+        return "Samples"
+    if isinstance(obj, np.ndarray):
+        return "ndarray"
+    if isinstance(obj, (list, tuple)):
+        return "list"
+    if hasattr(obj, "toarray"):
+        return "matrix"
+    return "scalar"
+
+
+def _snapshot(obj):
+    """A value copy of everything a caller can read from an object of the call protocol - (kind, dtype, shape, the
+    numbers as bytes, flag and geometry object of a CUQIarray) - sharing no memory with it; two snapshots are equal iff
+    the object reads the same, bit for bit.  None when the object holds no numbers."""
+    kind = _container(obj)
+    try:
+        if kind == "ndarray":
+            return None if obj.dtype == object else (kind, obj.dtype, obj.shape, obj.tobytes(), None, None)
+        if kind == "CUQIarray":
+            return None if obj.dtype == object else (kind, obj.dtype, obj.shape, obj.tobytes(),
+                                                     getattr(obj, "is_par", None), id(getattr(obj, "geometry", None)))
+        if kind == "Samples":
+            data = obj.samples
+            if isinstance(data, (list, tuple)):
+                data = np.array([np.asarray(c) for c in data])
+        elif kind == "matrix":
+            data = obj.toarray()
+        else:
+            data = obj
+        arr = np.asarray(data)
+        return None if arr.dtype == object else (kind, arr.dtype, arr.shape, arr.tobytes(), None, None)
+    except Exception:  # noqa  not an array-like object: nothing to remember
+        return None
+
+
+def _snap_values(snap):
+    return None if snap is None else np.frombuffer(snap[3], dtype=snap[1])[:6]
+
+
+class _Ledger:
+    """History facet 'outputs are values, inputs stay the caller's': every object handed to the model (input) and every
+    object handed back by it (output of forward / adjoint / gradient / get_matrix, in every representation) is KEPT
+    together with a value copy taken at call time resp. return time.  `audit` - run after the sample collections of a
+    battery, after the gradients, after get_matrix and at the end of the cell, i.e. after the model was applied to
+    other points, in other representations and to sample collections - demands that every kept object still reads
+    what it read then.  (The copy of an output was compared with the independent reference when it was returned.)
+    One raw failure per (operation, kind of object) and cell."""
+
+    def __init__(self):
+        self.outs, self.ins, self.reported = [], [], set()
+
+    def keep_input(self, op, rep, pname, obj):
+        snap = _snapshot(obj)
+        if snap is not None:
+            self.ins.append([op, rep, pname, obj, snap])
+        return snap
+
+    def forget_inputs(self, count):
+        del self.ins[len(self.ins) - count:]
+
+    def keep_output(self, op, rep, pname, obj):
+        snap = _snapshot(obj)
+        if snap is not None:
+            self.outs.append([op, rep, pname, obj, snap])
+
+    def _report(self, raw, op, kind, label, message, **detail):
+        if (op, kind, label) not in self.reported:
+            self.reported.add((op, kind, label))
+            raw.add(op, kind, message, rep=label, **detail)
+
+    def input_after_call(self, res, raw, op, rep, pname, obj, snap):
+        """Directly after the call: the caller's object reads what it read before the call."""
+        if snap is None:
+            return
+        res.evaluations += 1
+        if not _snapshot(obj) == snap:
+            self._report(raw, op + "-input", "input-altered", snap[0],
+                         "%s(%s given as %s) changed the caller's input object (%s): it read %s before the call and reads "
+                         "%s after it" % (op, pname, rep, snap[0], _snap_values(snap),
+                                          _flat_or_none(obj)), point=pname, given_as=rep)
+
+    def audit(self, res, raw, stage):
+        res.state("history:" + stage)
+        for op, rep, pname, obj, snap in self.outs:
+            res.evaluations += 1
+            now = _snapshot(obj)
+            if not now == snap:
+                self._report(raw, op + "-history", "earlier-output-altered", snap[0],
+                             "the %s returned by %s(%s given as %s) read %s when it was returned (= the reference value) and "
+                             "reads %s %s: later applications of the model changed an output the caller had kept"
+                             % (snap[0], op, pname, rep, _snap_values(snap),
+                                _snap_values(now), stage),
+                             point=pname, given_as=rep, stage=stage)
+        for op, rep, pname, obj, snap in self.ins:
+            res.evaluations += 1
+            if not _snapshot(obj) == snap:
+                self._report(raw, op + "-input", "input-altered", snap[0],
+                             "the %s handed to %s (%s given as %s) was changed by later applications of the model (%s)"
+                             % (snap[0], op, pname, rep, stage), point=pname, given_as=rep, stage=stage)
+        res.traces += 1
+
+
+def _flat_or_none(obj):
+    return _snap_values(_snapshot(obj))
+
+
 class _Raw(list):
     """Raw failures of one exploration: dicts with op, kind, rep (forward) or wrep/drep (gradient)."""
+
+    def __init__(self, *a):
+        super().__init__(*a)
+        self.ledger = _Ledger()
 
     def add(self, op, kind, message, rep=None, wrep=None, drep=None, **detail):
         self.append({"op": op, "kind": kind, "rep": rep, "wrep": wrep, "drep": drep,
@@ -286,13 +452,19 @@ class _Runner:
             raw.add(op, "values", "%s(%s given as %s) = %s, composed reference fun2par(f(par2fun(p))) = %s"
                     % (op, pname, rep, arr[:6], expect[:6]), rep=rep, point=pname, impl=arr, ref=expect)
 
-    def run(self, rep, pname, expect, want, call, tol=1e-9, may_refuse=False):
+    def run(self, rep, pname, expect, want, make, call, tol=1e-9, may_refuse=False):
+        """`make()` builds the caller's input object, `call(x)` applies the model to it.  Input and output objects go to
+        the history ledger of the cell (kept; audited after later applications)."""
         res, raw, op = self.res, self.raw, self.op
+        ledger = raw.ledger
         res.transitions += 1
+        x = make()
+        snap = ledger.keep_input(op, rep, pname, x)
         try:
-            out = call()
+            out = call(x)
         except Exception as e:  # noqa
             res.outcomes.add("%s:%s:raise:%s" % (op[:3], rep, type(e).__name__))
+            ledger.input_after_call(res, raw, op, rep, pname, x, snap)
             if may_refuse:
                 res.refused += 1
                 return
@@ -301,6 +473,8 @@ class _Runner:
                     rep=rep, point=pname)
             return
         res.outcomes.add("%s:%s:ok:%s" % (op[:3], rep, type(out).__name__))
+        ledger.input_after_call(res, raw, op, rep, pname, x, snap)
+        ledger.keep_output(op, rep, pname, out)
         self.judge(rep, out, expect, pname, want, tol)
 
 
@@ -325,33 +499,39 @@ def _battery(res, raw, op, apply, extra_routes, gi, go, lgi, lgo, pts, refs_at, 
     og_par = M.other_grid_geometry((gi.n,))
     og_fun = M.other_grid_geometry(gi.fshape)
     i64, f32 = np.int64, np.float32
+    ledger = raw.ledger
+
+    def ap(x):
+        return apply(x)
+
+    def apf(x):
+        return apply(x, is_par=False)
 
     for (pname, p), expect in zip(pts, refs_at):
         res.state("%s:pt:%s" % (op, pname) if op != "forward" else "pt:" + pname)
         F = np.array(gi.p2f(p), dtype=float)
-        R.run("par", pname, expect, "ndarray", lambda: apply(p.copy()))
+        R.run("par", pname, expect, "ndarray", lambda: p.copy(), ap)
         for rep, route in extra_routes:
-            R.run(rep, pname, expect, "ndarray", lambda: route(p))
-        R.run("fun", pname, expect, "ndarray", lambda: apply(F.copy(), is_par=False))
-        R.run("cuqi-par", pname, expect, "CUQIarray", lambda: apply(CUQIarray(p.copy(), is_par=True, geometry=lgi)))
-        R.run("cuqi-fun", pname, expect, "CUQIarray", lambda: apply(CUQIarray(F.copy(), is_par=False, geometry=lgi)))
-        R.run("cuqi-fun-flag", pname, expect, "CUQIarray",
-              lambda: apply(CUQIarray(F.copy(), is_par=False, geometry=lgi), is_par=False))
+            R.run(rep, pname, expect, "ndarray", lambda: p.copy(), route)
+        R.run("fun", pname, expect, "ndarray", lambda: F.copy(), apf)
+        R.run("cuqi-par", pname, expect, "CUQIarray", lambda: CUQIarray(p.copy(), is_par=True, geometry=lgi), ap)
+        R.run("cuqi-fun", pname, expect, "CUQIarray", lambda: CUQIarray(F.copy(), is_par=False, geometry=lgi), ap)
+        R.run("cuqi-fun-flag", pname, expect, "CUQIarray", lambda: CUQIarray(F.copy(), is_par=False, geometry=lgi), apf)
         # -- geometry carried by the array: different but compatible
-        R.run("cuqi-par-default", pname, expect, "CUQIarray", lambda: apply(CUQIarray(p.copy())))
+        R.run("cuqi-par-default", pname, expect, "CUQIarray", lambda: CUQIarray(p.copy()), ap)
         R.run("cuqi-par-othergrid", pname, expect, "CUQIarray",
-              lambda: apply(CUQIarray(p.copy(), is_par=True, geometry=og_par)))
+              lambda: CUQIarray(p.copy(), is_par=True, geometry=og_par), ap)
         R.run("cuqi-fun-othergrid", pname, expect, "CUQIarray",
-              lambda: apply(CUQIarray(F.copy(), is_par=False, geometry=og_fun), is_par=False))
+              lambda: CUQIarray(F.copy(), is_par=False, geometry=og_fun), apf)
         # -- dtype of the vector
         if _is_int(p):
-            R.run("par-int", pname, expect, "ndarray", lambda: apply(p.astype(i64)))
+            R.run("par-int", pname, expect, "ndarray", lambda: p.astype(i64), ap)
             R.run("cuqi-par-int", pname, expect, "CUQIarray",
-                  lambda: apply(CUQIarray(p.astype(i64), is_par=True, geometry=lgi)))
-        R.run("par-float32", pname, expect, "ndarray", lambda: apply(p.astype(f32)), tol=F32_TOL)
+                  lambda: CUQIarray(p.astype(i64), is_par=True, geometry=lgi), ap)
+        R.run("par-float32", pname, expect, "ndarray", lambda: p.astype(f32), ap, tol=F32_TOL)
         R.run("cuqi-par-float32", pname, expect, "CUQIarray",
-              lambda: apply(CUQIarray(p.astype(f32), is_par=True, geometry=lgi)), tol=F32_TOL)
-        R.run("par-list", pname, expect, None, lambda: apply([float(v) for v in p]), may_refuse=True)
+              lambda: CUQIarray(p.astype(f32), is_par=True, geometry=lgi), ap, tol=F32_TOL)
+        R.run("par-list", pname, expect, None, lambda: [float(v) for v in p], ap, may_refuse=True)
 
     # ---- sample collections with 1, 2, 3 columns --------------------------------------------
     ipts = [i for i, (_, p) in enumerate(pts) if _is_int(p)]
@@ -380,10 +560,15 @@ def _battery(res, raw, op, apply, extra_routes, gi, go, lgi, lgo, pts, refs_at, 
                     data = cols.copy()
                 res.transitions += 1
                 res.state("%s%s:%d" % ("" if op == "forward" else op + ":", rep, ncol))
+                cname = "columns(%s)" % ",".join(pts[i][0] for i in idx)
+                coll = Samples(data, geometry=sgeom)
+                snaps = [(o, ledger.keep_input(op, rep, cname, o)) for o in (coll, data)]
                 try:
-                    out = apply(Samples(data, geometry=sgeom))
+                    out = apply(coll)
                 except Exception as e:  # noqa
                     res.outcomes.add("%s:%s%d:raise:%s" % (op[:3], rep, ncol, type(e).__name__))
+                    for o, sn in snaps:
+                        ledger.input_after_call(res, raw, op, rep, cname, o, sn)
                     if dtype == "list":
                         res.refused += 1
                         continue
@@ -392,6 +577,9 @@ def _battery(res, raw, op, apply, extra_routes, gi, go, lgi, lgo, pts, refs_at, 
                     continue
                 res.evaluations += 1
                 res.outcomes.add("%s:%s%d:ok:%s" % (op[:3], rep, ncol, type(out).__name__))
+                for o, sn in snaps:
+                    ledger.input_after_call(res, raw, op, rep, cname, o, sn)
+                ledger.keep_output(op, rep, cname, out)
                 if not isinstance(out, Samples):
                     raw.add(op + "-wrapping", "type", "Samples in, %s out" % type(out).__name__, rep=rep)
                     continue
@@ -413,6 +601,9 @@ def _battery(res, raw, op, apply, extra_routes, gi, go, lgi, lgo, pts, refs_at, 
                 if not close(S, expect, tol):
                     raw.add(op, "values", "column-wise application to %d column(s) (%s) differs from the application to "
                             "each column as a float64 vector (composed reference)" % (ncol, rep), rep=rep, impl=S, ref=expect)
+    # ---- history: every output kept above (each point in each representation, each collection) still reads what it
+    #      read when it was returned, every input object what the caller put into it
+    ledger.audit(res, raw, "after the %s battery" % op)
 
 
 def _explore(res, cell):
@@ -473,9 +664,9 @@ def _explore(res, cell):
     # keyword call by the model's own input name ('x' for the user functions of the catalogue; a transposed matrix
     # model names its input after the library's adjoint function)
     argname = list(cuqi.utilities.get_non_default_args(model))[0]
-    extra = [("par-call", lambda p: model(p.copy())), ("par-keyword", lambda p: model.forward(**{argname: p.copy()}))]
+    extra = [("par-call", lambda x: model(x)), ("par-keyword", lambda x: model.forward(**{argname: x}))]
     if mcls == "LinearModel":
-        extra.append(("par-matmul", lambda p: model @ p.copy()))
+        extra.append(("par-matmul", lambda x: model @ x))
     _battery(res, raw, "forward", lambda x, **kw: model.forward(x, **kw), extra, gd, gr, dg, rg, pts, refs_at, compared,
              cell["allw"])
     res.outcomes.add("val:%s:%.6g" % (name, float(np.sum(refs_at[-1]))))
@@ -494,9 +685,9 @@ def _explore(res, cell):
             res.state("equal-geometry-copy")
             one = _Runner(res, raw, "forward", rg, compared)
             one.run("cuqi-par-equalgeom", pname, expect, "CUQIarray",
-                    lambda: model.forward(CUQIarray(p.copy(), is_par=True, geometry=dg2)))
+                    lambda: CUQIarray(p.copy(), is_par=True, geometry=dg2), lambda x: model.forward(x))
             one.run("cuqi-fun-equalgeom", pname, expect, "CUQIarray",
-                    lambda: model.forward(CUQIarray(F.copy(), is_par=False, geometry=dg2)))
+                    lambda: CUQIarray(F.copy(), is_par=False, geometry=dg2), lambda x: model.forward(x))
 
     # ---- 2b. the adjoint of a linear model is an application range -> domain: same representations ----------------
     if hasattr(model, "adjoint") and hasattr(b, "fT"):
@@ -518,8 +709,9 @@ def _explore(res, cell):
 
     # ---- 3b. non-initial state: after get_matrix() was called on a linear model, forward and gradient are unchanged ------
     if hasattr(model, "get_matrix"):
+        ledger = raw.ledger
         try:
-            model.get_matrix()
+            ledger.keep_output("get_matrix", "first call", "-", model.get_matrix())   # kept; audited after the applications below
             called = True
         except Exception:  # noqa
             called = False
@@ -528,7 +720,12 @@ def _explore(res, cell):
             pname, p = pts[-1]
             res.transitions += 1
             try:
-                out = _flat(model.forward(p.copy()))
+                x = p.copy()
+                snap = ledger.keep_input("forward", "par", pname, x)
+                o = model.forward(x)
+                ledger.input_after_call(res, raw, "forward", "par", pname, x, snap)
+                ledger.keep_output("forward", "par", pname, o)
+                out = _flat(o)
                 if out.shape != ref(p).shape or not close(out, ref(p), 1e-9):
                     raw.add("forward-after-get_matrix", "values", "forward(p) changed after get_matrix() was called on the model", rep="par")
             except Exception as e:  # noqa
@@ -538,18 +735,31 @@ def _explore(res, cell):
                 d = np.eye(m)[:, j].copy()
                 res.transitions += 1
                 try:
-                    g = _flat(model.gradient(d.copy(), p.copy()))
+                    go = model.gradient(d.copy(), p.copy())
+                    g = _flat(go)
                 except Exception:  # noqa
                     res.refused += 1
                     continue
+                ledger.keep_output("gradient", "par", "direction d%d at %s" % (j, pname), go)
                 res.traces += 1
                 if g.size != n or not (close(g, Jm.T @ d, 1e-5) or close(g, refs.richardson_jac(ref, p, h=4e-4).T @ d, 1e-5)):
                     raw.add("gradient-after-get_matrix", "values", "after get_matrix() the gradient %s is not J^T direction %s"
                             % (g[:6], (Jm.T @ d)[:6]), wrep="par", drep="par")
                     break
+            # a second matrix, then: the first one (and everything kept before) is what it was
+            res.transitions += 1
+            try:
+                ledger.keep_output("get_matrix", "second call", "-", model.get_matrix())
+            except Exception:  # noqa  (judged elsewhere: C07)
+                pass
+            ledger.audit(res, raw, "after get_matrix, forward, gradient and a second get_matrix")
 
     # ---- 4. model(distribution) only renames -----------------------------------------------------
     _check_rename(res, raw, cell, model, pts, refs_at, n, m)
+
+    # ---- 5. history: at the end of the cell every object the caller kept (outputs of forward / adjoint / gradient /
+    #         get_matrix in every representation, the caller's own input objects) reads what it read at return time
+    raw.ledger.audit(res, raw, "at the end of the cell")
 
     raw.compared = compared[0]
     raw.sample = {"model": name, "domain": repr(dg), "range": repr(rg), "point": pts[-1][1],
@@ -601,6 +811,7 @@ def _check_gradient(res, raw, cell, model, gd, gr, dg, rg, pts, ref):
     ogd_par, ogd_fun = M.other_grid_geometry((n,)), M.other_grid_geometry(gd.fshape)
     ogr_par, ogr_fun = M.other_grid_geometry((m,)), M.other_grid_geometry(gr.fshape)
     main_pairs = [(a, b_) for a in GRAD_REPS for b_ in GRAD_REPS]
+    ledger = raw.ledger
     for wname, w in wpts:
         Wf = np.array(gd.p2f(w), dtype=float)
         J = {}
@@ -626,6 +837,9 @@ def _check_gradient(res, raw, cell, model, gd, gr, dg, rg, pts, ref):
                     continue
                 (dd, dflag), (ww, wflag) = da, wa
                 res.transitions += 1
+                gname = "direction %s at %s" % (dname, wname)
+                grep_ = "direction=%s,wrt=%s" % (drep, wrep)
+                snaps = [(o, ledger.keep_input("gradient", grep_, gname, o)) for o in (dd, ww)]
                 try:
                     gout = model.gradient(dd, ww, is_direction_par=dflag, is_wrt_par=wflag)
                     g = _flat(gout)
@@ -633,7 +847,13 @@ def _check_gradient(res, raw, cell, model, gd, gr, dg, rg, pts, ref):
                     res.refused += 1
                     res.count("gradient-refused")
                     res.outcomes.add("grad:%s:%s:refused:%s" % (wrep, drep, type(e).__name__))
+                    for o, sn in snaps:
+                        ledger.input_after_call(res, raw, "gradient", grep_, gname, o, sn)
+                    ledger.forget_inputs(len(snaps))     # a refused call: judged right after it, not kept for later
                     continue
+                for o, sn in snaps:
+                    ledger.input_after_call(res, raw, "gradient", grep_, gname, o, sn)
+                ledger.keep_output("gradient", grep_, gname, gout)
                 res.count("gradient-computed")
                 res.evaluations += 1
                 res.outcomes.add("grad:%s:%s:ok" % (wrep, drep))
@@ -665,6 +885,8 @@ def _check_gradient(res, raw, cell, model, gd, gr, dg, rg, pts, ref):
                         "finite differences of the composed parameter-to-output map, two step sizes)"
                         % (dname, drep, wname, wrep, g[:6], e2[:6]),
                         wrt=w, direction=d, impl=g, ref=e2, **tag)
+    # history: gradients kept from earlier (direction, point) pairs, and the outputs of the batteries before them
+    ledger.audit(res, raw, "after the gradients")
 
 
 def _check_rename(res, raw, cell, model, pts, refs_at, n, m):
